@@ -66,12 +66,13 @@ def run(tier):
     r = vlib.tlc("Trivia", "Trivia.cfg")
     chk.add_tlc(r)
     edits = {c["n"]: c["edits"] for c in r.records}
-    progs = families.all_programs(chk, depth_values=1, depth_verdict=0)
+    progs = families.all_programs(chk, depth_values=1, depth_verdict=0, forms=True)
     rng = corpus.rng_for(PROP, vlib.seed())
     base = [{"src": p["src"], "origin": "%s/%s" % (p["family"], p["kind"])} for p in progs if p["family"] == "MC_C01"]
     if tier == "quick":
         base = base[::10]
-    base += [{"src": p["src"], "origin": "%s/%s" % (p["family"], p["kind"])} for p in progs if p["family"] != "MC_C01"][:: (40 if tier == "quick" else 6)]
+    base += [{"src": p["src"], "origin": "%s/%s" % (p["family"], p["kind"])} for p in progs if p["family"] not in ("MC_C01", "MC_Forms")][:: (40 if tier == "quick" else 6)]
+    base += [{"src": p["src"], "origin": "%s/%s" % (p["family"], p["kind"])} for p in progs if p["family"] == "MC_Forms"]
     base += [{"src": t, "origin": "sample:" + rel} for rel, t in corpus.repo_samples(kinds=("valid",))]
     # every kind of simple statement at every kind of block position (spec/MC_C14.tla)
     r2 = vlib.tlc("MC_C14", "MC_C14.cfg")
